@@ -1,8 +1,15 @@
 """C08 -- after any finite run of faults the client re-converges on the cache's data."""
 from .fsm_common import fsm_job
 
-INFO = {"outside": "wip", "assumptions": []}
-MANIFEST = {"text": "wip", "note": "wip"}
+INFO = {
+    "outside": 'the liveness composition itself; fault schedules are covered through the arbitrary start state rather than enumerated',
+    "assumptions": ['as C05'],
+}
+MANIFEST = {
+    "text": "Unbounded liveness of a threaded state machine is not decidable by bounded symbolic execution; decided are the local lemmas from which the time bound is assembled by hand: (L1) from an arbitrary SInv state no reconnect cycle happens without sleep(retry_interval) in between, except one immediate reconnect per version downgrade; (L2) = C07's expiry lemma; (L3) with a cache that answers correctly, ESTABLISHED is reached within 16 environment interactions and 2 retry intervals of protocol time from EVERY SInv state. A deliberately too small step bound makes (L3) fail, so it is not vacuous.",
+    "note": "The composition of L1-L3 into 'refresh + expire + small multiple of retry' is a hand argument in DESIGN.md, not machine-checked. Data-set equality after convergence is C03's statement.",
+    "technique": 'CBMC bounded lemmas (no zero-time cycle, bounded convergence) on real rtr_fsm_start',
+}
 
 
 def jobs(tier):
